@@ -979,7 +979,8 @@ def _tree(doc=None, text=None, suffix=".json", cfg=None):
 def equivalent_docs_cases(tier):
     return ["nullable-30-vs-typelist", "nullable-ref-allof", "wrapper-allof", "wrapper-oneof", "wrapper-anyof", "json-vs-yaml",
             "nullable-model-oneof", "null-enum-param-shared", "wrapper-with-default", "same-ref-twice-in-union",
-            "union-of-wrappers", "null-enum-component-shared", "nullable-enum-with-null-30-vs-31", "nullable-redeclared-in-allof"]
+            "union-of-wrappers", "null-enum-component-shared", "nullable-enum-with-null-30-vs-31", "nullable-redeclared-in-allof",
+            "multipart-body-wrapper"]
 
 
 def equivalent_docs(case):
@@ -1003,6 +1004,15 @@ def equivalent_docs(case):
     elif case == "nullable-model-oneof":
         d1 = doc({"p": {"oneOf": [ref, {"type": "string"}], "nullable": True}})
         d2 = doc({"p": {"oneOf": [ref, {"type": "string"}, {"type": "null"}]}})
+    elif case == "multipart-body-wrapper":
+        # request bodies (multipart and json) and a response written as one-element wrappers around the reference
+        def paths(sch):
+            return {"/up": {"post": {"operationId": "up", "requestBody": {"content": {"multipart/form-data": {"schema": sch}}},
+                                     "responses": {"200": {"description": "ok", "content": {"application/json": {"schema": sch}}}}}},
+                    "/js": {"post": {"operationId": "js", "requestBody": {"content": {"application/json": {"schema": sch}}},
+                                     "responses": {"204": {"description": "ok"}}}}}
+        d1 = doc({"x": {"type": "string"}}, paths=paths({"allOf": [ref]}))
+        d2 = doc({"x": {"type": "string"}}, paths=paths(ref))
     elif case.startswith("wrapper-") and case != "wrapper-with-default":
         key = {"wrapper-allof": "allOf", "wrapper-oneof": "oneOf", "wrapper-anyof": "anyOf"}[case]
         d1 = doc({"p": {key: [ref]}, "e": {key: [{"$ref": "#/components/schemas/En"}]}})
